@@ -664,6 +664,78 @@ def witness_key(why, c, home):
         esc(c["sender"], 24), esc(c["msg"], 24), ctl)
 
 
+def temp_trouble(ck, tree, thorough):
+    """one call of qmail-local failing with an errno that stands for temporary trouble, for an address that has its own .qmail file
+    (and a -default file and default delivery instructions that would apply if that file 'did not exist')"""
+    import sandbox
+    root = ck.scratch.sub("tt")
+    home = os.path.join(root, "home")
+    msgf = os.path.join(root, "msg")
+    with open(msgf, "wb") as fh:
+        fh.write(b"Subject: t\n\nbody\n")
+
+    def setup():
+        shutil.rmtree(home, ignore_errors=True)
+        os.mkdir(home, 0o755)
+        for name, body in ((".qmail-a", b"./mbA\n"), (".qmail-default", b"./mbD\n")):
+            with open(os.path.join(home, name), "wb") as fh:
+                fh.write(body)
+            os.chmod(os.path.join(home, name), 0o600)
+
+    def count(name):
+        try:
+            with open(os.path.join(home, name), "rb") as fh:
+                return fh.read().count(b"\nSubject: t\n")
+        except FileNotFoundError:
+            return 0
+
+    def run(extra, trace=None):
+        setup()
+        if trace is None:
+            trace = os.path.join(root, "trace.x")          # (the shim takes decisions only while it records)
+            if os.path.exists(trace):
+                os.unlink(trace)
+        env = sandbox.shim_env(tree, trace=trace, root=root, extra=extra)
+        with open(msgf, "rb") as fin:
+            p = subprocess.run([tree.bin("qmail-local"), "--", "u", home, "u-a", "-", "a", "h.test", "s@s.test", "./mbF"], stdin=fin,
+                               stdout=subprocess.PIPE, stderr=subprocess.PIPE, env=env, cwd="/", timeout=60)
+        return {"rc": p.returncode if p.returncode >= 0 else 256 - p.returncode, "a": count("mbA"), "d": count("mbD"), "f": count("mbF")}
+    tr = os.path.join(root, "trace")
+    base = run({}, trace=tr)
+    if base["rc"] != 0 or base["a"] != 1 or base["d"] or base["f"]:
+        raise Infra("temporary-trouble sweep: the undisturbed run does not deliver to mailbox A: %r" % base)
+    calls = {}
+    for e in sandbox.read_trace(tr):
+        if e.get("k", 0) > 0 and e.get("c") not in ("start", "exit", "forked", "hello") and "qmail-local" in e.get("r", ""):
+            calls.setdefault((e.get("p"), e["k"]), e["c"])
+    ks = sorted({k for (_, k) in calls})
+    errnos = [4, 5, 11, 12, 16, 23, 24, 26, 27, 28, 35, 110] if thorough else [5, 11, 12, 23, 24, 28]
+    recs = []
+    for k in ks:
+        for en in errnos:
+            r = run({"VERIF_FAULT": "%d:%d" % (k, en), "VERIF_FAULT_PROG": "qmail-local"})
+            r.update({"brc": base["rc"], "ba": base["a"], "bd": base["d"], "bf": base["f"], "k": k, "errno": en})
+            recs.append(r)
+    f = ck.scratch.path("c13tt.ndjson")
+    write_ndjson(f, recs)
+    bad, vres = tlc_validate_records("DotQmailFaultRec", "DotQmailFaultRec.cfg", f, len(recs), chunk=100, heap="2g", timeout=600)
+    ck.add_tlc("DotQmailFaultRec", vres)
+    ck.cov["runs_with_one_call_failing_temporarily"] = len(recs)
+    ck.cov["of_which_deferred"] = sum(1 for r in recs if r["rc"] == 111)
+    if not ck.cov["of_which_deferred"]:
+        raise Infra("temporary-trouble sweep: no failing call had any effect (the fault injection is not working)")
+    seen = set()
+    for idx, why in bad:
+        why = why.strip('"')
+        r = recs[idx - 1]
+        key = "%s:errno=%d" % (why, r["errno"])
+        if key in seen:
+            continue
+        seen.add(key)
+        ck.violation(key, "qmail-local for an address with its own .qmail file, call %d failing with errno %d: exit %d, mailboxes A/D/F hold %d/%d/%d messages (undisturbed: exit %d, %d/0/0)"
+                     % (r["k"], r["errno"], r["rc"], r["a"], r["d"], r["f"], r["brc"], r["ba"]), {"k": r["k"], "errno": r["errno"]})
+
+
 def main():
     ap = argparse.ArgumentParser()
     ap.add_argument("--tier", default=os.environ.get("VERIF_TIER", "quick"))
@@ -807,6 +879,8 @@ def main():
             continue
         ck.violation(key, desc, enc_case(c))
     ck.cov["pending_findings_hit"] = pending
+    if not a.replay:
+        temp_trouble(ck, tree, thorough)
     ck.finish()
 
 
